@@ -351,8 +351,15 @@ pub fn ifworld(prog: &[Item], defines: &[(String, RVal)]) -> Outcome {
     for (i, it) in world.iter().enumerate() {
         if let Item::Sub(p, _, _) = it {
             // lexical scoping: the parent is the last level-0 symbol before it in the selected world
+            // (a child of a child, `..name`: the nearest earlier declaration that is not a sibling under the same parent
+            // must be that parent itself, a one-dot constant)
             let ok = world[..i].iter().rev().find_map(|w| match w {
                 Item::Label(q) | Item::Const(q, _) => Some(q == p),
+                Item::Sub(pp, n, _) if pp == p => {
+                    let _ = n;
+                    None
+                }
+                Item::Sub(pp, n, _) => Some(format!("{}.{}", pp, n) == *p),
                 _ => None,
             }) == Some(true);
             if !ok {
